@@ -206,6 +206,10 @@ func LoadFilesRecursively(dir string) (KeyFiles, error) {
 		}
 
 		if !ok || err != nil {
+			if len(passwordsMap) == 0 {
+				return KeyFile{}, errors.New("no password files found", z.Str("filepath", filepath))
+			}
+
 			// Try other passwords
 			for _, otherPassword := range passwordsMap {
 				secret, err = decrypt(store, otherPassword)
